@@ -7,6 +7,7 @@ the <<"V", ...>> lines TLC prints while validating traces."""
 import hashlib
 import json
 import os
+import threading
 import re
 import subprocess
 import sys
@@ -113,7 +114,31 @@ def fmt_op(op):
     return ' '.join([op[0], op[1], op[2]] + [str(x) for x in op[3]])
 
 
+_gen_pool = None
+_gen_pool_lock = threading.Lock()
+
+
 def _tlc_stimuli(module, cfgtext, descr):
+    """Run TLC on one instance and turn its <<"S", history, call, outcome>> lines into a stimulus file (cached).  The work is
+    done in a worker PROCESS: parsing hundreds of megabytes of TLC output is pure Python and must not hold the interpreter
+    lock of the process that runs all the jobs."""
+    global _gen_pool
+    key = sha('stim', spec_sha(), module, cfgtext)
+    meta = os.path.join(CACHE, 'stim', key, 'meta.json')
+    if os.path.exists(meta):
+        try:
+            return json.load(open(meta))
+        except Exception:      # being written by another process: fall through to the locked path
+            pass
+    with _gen_pool_lock:
+        if _gen_pool is None:
+            import concurrent.futures
+            import multiprocessing
+            _gen_pool = concurrent.futures.ProcessPoolExecutor(max_workers=max(2, min(8, NCPU // 2)), mp_context=multiprocessing.get_context('spawn'))
+    return _gen_pool.submit(_tlc_stimuli_impl, module, cfgtext, descr).result()
+
+
+def _tlc_stimuli_impl(module, cfgtext, descr):
     key = sha('stim', spec_sha(), module, cfgtext)
     d = os.path.join(CACHE, 'stim', key)
     meta = os.path.join(d, 'meta.json')
@@ -152,7 +177,17 @@ def _tlc_stimuli(module, cfgtext, descr):
 
 def gen_stimuli_sim(consts, num, depth, seed):
     """Long random behaviours of an MC instance (tlc -simulate): one stimulus per behaviour = its whole call history.
-    They exist to catch behaviour that depends on state the shape abstraction does not contain."""
+    They exist to catch behaviour that depends on state the shape abstraction does not contain.  (Worker process, as above.)"""
+    global _gen_pool
+    with _gen_pool_lock:
+        if _gen_pool is None:
+            import concurrent.futures
+            import multiprocessing
+            _gen_pool = concurrent.futures.ProcessPoolExecutor(max_workers=max(2, min(8, NCPU // 2)), mp_context=multiprocessing.get_context('spawn'))
+    return _gen_pool.submit(_gen_stimuli_sim_impl, consts, num, depth, seed).result()
+
+
+def _gen_stimuli_sim_impl(consts, num, depth, seed):
     c = dict(MC_DEFAULTS)
     c.update(consts)
     cfgtext = mc_cfg_text(c)
